@@ -461,3 +461,38 @@ def replay_file(mod, path):
         return 1
     sys.stdout.write("replay of %s: violation not reproduced on this tree\n" % path)
     return 0
+
+
+# --------------------------------------------------------------------------------------------
+# file-access monitor (audit hook: covers open(), io.open, os.open, pathlib)
+# --------------------------------------------------------------------------------------------
+_AUDIT = {"on": False, "log": [], "installed": False}
+
+
+def _audit_hook(event, args):
+    if event == "open" and _AUDIT["on"]:
+        try:
+            path, mode, flags = args[0], args[1], args[2]
+            if isinstance(path, (str, bytes, os.PathLike)):
+                p = os.path.abspath(os.fsdecode(path))
+                write = bool(flags & (os.O_WRONLY | os.O_RDWR | os.O_CREAT | os.O_TRUNC | os.O_APPEND)) if isinstance(flags, int) else \
+                    any(c in (mode or "") for c in "wax+")
+                _AUDIT["log"].append((p, "w" if write else "r"))
+        except Exception:  # noqa
+            pass
+
+
+class audit_opens:
+    """with audit_opens() as log: ...   -> log is a list of (absolute path, 'r'|'w')"""
+
+    def __enter__(self):
+        if not _AUDIT["installed"]:
+            sys.addaudithook(_audit_hook)
+            _AUDIT["installed"] = True
+        _AUDIT["log"] = []
+        _AUDIT["on"] = True
+        return _AUDIT["log"]
+
+    def __exit__(self, *a):
+        _AUDIT["on"] = False
+        return False
